@@ -23,7 +23,11 @@ P = {'id': 'C16',
               'queue_in_age_order',
               'bulk_reclaim_safe',
               'handed_back_safe',
-              'handed_back_safe_after'],
+              'handed_back_safe_after',
+              'spec_invariants',
+              'step_refines',
+              'run_refines',
+              'property_from_spec'],
  'trusted': ['modelled (M+S): src/fsa/version_sync.rs VersionManager::{acquire_reader_token, acquire_writer_token, release_reader_token, '
              'release_writer_token, try_advance_min_version} one shared access per step in the code\'s order, token_chain_mutex as an owner field, '
              'LazyFreeList::process_safe_items / LazyFreeItem::can_free; src/fsa/token.rs TokenManager::{acquire_*_token, return_*_token, '
@@ -47,13 +51,15 @@ P = {'id': 'C16',
                'min_version never exceeds the version of a live token, so process_safe_items(min_version) never frees an item retired at or after a '
                'live token\'s version, and every item that leaves the lazy free list in a step of any interleaving is older than every token live before and after that step '
                '(the queue stays in age order; process_safe_items frees a prefix of it, at most max(1, threshold) items per call, and drains it under repeated calls); the active counters equal the numbers of live tokens whenever no operation is in flight and are zero at the end. '
+               'Refinement: every step of the interleaving semantics is a step of a small abstract specification (multisets of live reader / writer versions '
+               'and the threshold; acquire, release, advance), whose invariants are the clauses of the property. '
                'These hold for the access order of the code after two fix: commits; for the order of the pinned tree the same model refutes (i) and '
                '(ii) with explicit schedules that also failed on the real code. The model is tied to the code on every run by executing real threads '
                'under explicit schedules (hooks before every shared access) and comparing every step with the model evaluated in Coq.',
  'level_note': 'Trusted: Coq kernel + vm_compute; hand-written model; hook placement; harness scheduler and oracle. For (iv) the model carries the Arc '
                'reference count of each manager state (seq_no_dangling); on the real code every release consults a registry of destroyed manager states '
                '(hook), also at thread exit.',
- 'technique': 'Coq: inductive invariant over all reachable states of an interleaving semantics (rely/guarantee-style frame lemmas), refutation by '
+ 'technique': 'Coq: inductive invariant over all reachable states of an interleaving semantics (rely/guarantee-style frame lemmas), forward simulation to an abstract specification (token-conservation lemma per step), refutation by '
               'vm_compute on explicit schedules; controlled-scheduler (baton passing) differential check of real threads against the model; '
               'pre-emption-bounded schedule enumeration + random schedules; direct oracle on observed tokens and counters',
  'explanation': 'Unbounded theorems for the concurrent protocol; sequential multi-manager histories checked by model correspondence and oracle.',
